@@ -8,7 +8,7 @@ Set Extraction KeepSingleton.
 Extraction "model.ml"
   N.add Z.add Nat.add N.of_nat N.to_nat Z.of_N Z.to_N
   Huffman.symbols Huffman.compile Huffman.from_symbols Huffman.new Huffman.new_vec Huffman.index_from
-  Huffman.decode Huffman.decode_many Huffman.read_huffman Huffman.observe
+  Huffman.decode Huffman.decode_many Huffman.read_huffman Huffman.observe Huffman.total_tables
   HuffmanSpec.spec_accepts HuffmanSpec.kraft_is_one HuffmanSpec.kraft_le_one HuffmanSpec.single_len1
   HuffmanSpec.canonical HuffmanSpec.rfc_table HuffmanSpec.table_decode HuffmanSpec.table_decode_many
   HuffmanSpec.spec_longest HuffmanSpec.spec_observation.
